@@ -718,8 +718,35 @@ def run_check(engine, tier, max_minimise=8):
         print("  class=%s site=%s runs=%d%s" % (k[0], k[1], len(by_key[k]), note))
         print("  detail: %s" % scrub(str(v.get("detail", "")))[:600])
         exit_code = EXIT_VIOLATION
-    for h in agg["harness"][:5]:
-        print("HARNESS-ERROR run=%s what=%s\n%s" % (h.get("run"), h.get("what"), h.get("trace")))
+    # A run that does not come back is not a pass.  If a plan times out, it is executed once more, alone; if it times
+    # out again (at a limit that is ~100x what any run needs on the unchanged tree) the call under test does not
+    # terminate on this input: that is reported as a violation of its own class (the plan is the replay), and the
+    # early stop it caused is not counted against the harness.
+    hang_confirmed = False
+    touts = [h for h in agg["harness"] if h.get("what") == "timeout" and h.get("plan") is not None]
+    if touts:
+        hplan = touts[0]["plan"]
+        status, _ = fork_call(engine.execute, (hplan, False), timeout=getattr(engine, "RUN_TIMEOUT", 120.0))
+        if status == "timeout":
+            hang_confirmed = True
+            key = ("HANG", prop)
+            path = write_replay(prop, hplan, key, None, minimised_from=engine.size(hplan), execs=0)
+            print("VIOLATION property=%s replay=%s" % (prop, path))
+            print("  class=HANG site=%s runs=%d" % (prop, len(touts)))
+            print("  detail: run %s does not terminate within %.0f s (twice; every run of this check takes seconds on the unchanged tree)" % (
+                touts[0].get("run"), getattr(engine, "RUN_TIMEOUT", 120.0)))
+            new_keys.append(key)
+            by_key[key] = [(touts[0], {"cls": "HANG", "site": prop, "detail": "timeout"})] * len(touts)
+            exit_code = EXIT_VIOLATION
+    shown = 0
+    for h in agg["harness"]:
+        if hang_confirmed and (h.get("what") == "timeout" or str(h.get("what", "")).startswith("campaign stopped early")):
+            continue
+        if shown < 5:
+            print("HARNESS-ERROR run=%s what=%s\n%s" % (h.get("run"), h.get("what"), h.get("trace")))
+        shown += 1
+    if hang_confirmed:
+        agg["harness"] = [h for h in agg["harness"] if not (h.get("what") == "timeout" or str(h.get("what", "")).startswith("campaign stopped early"))]
     if agg["harness"] and exit_code == EXIT_OK:
         exit_code = EXIT_HARNESS
     wall = time.time() - t0
@@ -748,7 +775,11 @@ def run_replay(engine, path):
     import_target()
     doc, plan = load_replay(path)
     key = (doc["expect"]["cls"], doc["expect"]["site"])
-    status, res = fork_call(engine.execute, (plan, False))
+    status, res = fork_call(engine.execute, (plan, False), timeout=getattr(engine, "RUN_TIMEOUT", 120.0))
+    if status == "timeout" and key[0] == "HANG":
+        print("VIOLATION property=%s replay=%s" % (engine.PROP, path))
+        print("  class=HANG site=%s\n  detail: the plan does not terminate within %.0f s" % (key[1], getattr(engine, "RUN_TIMEOUT", 120.0)))
+        return EXIT_VIOLATION
     if status != "ok":
         print("HARNESS-ERROR replay %s: %s\n%s" % (path, status, res))
         return EXIT_HARNESS
